@@ -65,7 +65,7 @@ AddBias1(y, b) == [c \in 1..Len(y) |-> y[c] + b[c]]
 \* ---- the order in which a layer applies its quantizers (one call)
 \* roles: "kernel" "depthwise" "pointwise" "bias" "average" "activation"
 Pipeline(cls, usebias, hasact) ==
-  (CASE cls \in {"QDense", "QConv1D", "QConv2D"} -> <<"kernel">>
+  (CASE cls \in {"QDense", "QConv1D", "QConv2D", "QScaleShift"} -> <<"kernel">>
      [] cls = "QDepthwiseConv2D" -> <<"depthwise">>
      [] cls \in {"QSeparableConv1D", "QSeparableConv2D"} -> <<"depthwise", "pointwise">>
      [] cls \in {"QAveragePooling2D", "QGlobalAveragePooling2D"} -> <<"average">>)
